@@ -665,3 +665,10 @@ def run(ck):
         c13_2(ck, prog)
         c13_2c(ck, prog)
         c13_3(ck, prog)
+        r = ck.rule('C13.6', 'the counters\' containers live as long as the bus: the per-user connection table, the '
+                    'pending-reply list and the connections object are created once and released only by their '
+                    'destructors', 'WHO',
+                    breaks='recreating a container resets what the limits are counted against while the counted '
+                    'objects still exist', floor=3)
+        lib.state_lifetime(prog, r, [('BusConnections', 'completed_by_user'), ('BusConnections', 'pending_replies'),
+                                     ('BusContext', 'connections')])
